@@ -356,6 +356,9 @@ func process(path string) ([]byte, error) {
 					case x.Name == "time" && se.Sel.Name == "Sleep" && len(n.Args) == 1:
 						c.Replace(call("Sleep", site(n), n.Args[0]))
 						used = true
+					case x.Name == "time" && se.Sel.Name == "NewTicker" && len(n.Args) == 1 && x.Obj == nil:
+						c.Replace(call("NewTicker", site(n), n.Args[0]))
+						used = true
 					case x.Name == "time" && se.Sel.Name == "AfterFunc" && len(n.Args) == 2:
 						c.Replace(call("AfterFunc", site(n), n.Args[0], n.Args[1]))
 						used = true
